@@ -834,6 +834,14 @@ def observe(env, prefix, out, depth=0):
     add(prefix + ".size_known", fmt_val(sz is not None), "struct.size_known")
     if sz is not None:
         add(prefix + ".size", str(sz), "struct.size")
+    if _size_is_static(env):
+        # every field unconditional at a constant location: the size constants are that size
+        static = 0
+        for f in env.s.fields:
+            if not f.is_virtual:
+                static = max(static, Env.eval(env, f.start) + Env.eval(env, f.size))
+        add(prefix + ".max_size", str(static), "struct.max_size")
+        add(prefix + ".min_size", str(static), "struct.min_size")
     for name, f, container in env.fields():
         if isinstance(f.type, D.AnonBits):
             continue
